@@ -190,8 +190,10 @@ Definition sym_valid (a : aspect) (A : smat) (v : sval) : bool :=
   match a with
   | ADense => is_kind v KDense
   | AChol up => is_factor v (if up then RRootT else RRoot) && sv_tri v && Bool.eqb (sv_upper v) up && sv_tri_ok v
-  | ARoot => is_rootop v RRoot && label_ok v
+  | ARoot => is_rootop v RRoot && label_ok v && negb (sv_tri v && sv_upper v)   (* a Triangular root is a LOWER factor *)
   | ARootInv => is_rootop v RInv && label_ok v
+  | AFactor => is_factor v RRoot && label_ok v && negb (sv_tri v && sv_upper v)
+  | AInvFactor => is_factor v RInv && label_ok v
   | AEig vecs => is_kind v (KEig vecs)
   | AEvals => is_kind v KEvals
   | ASvd => is_kind v KSvd
